@@ -132,6 +132,18 @@ def check(db, rep):
     for need in ('AddConnection', 'SetItemInputs', 'EraseInternal'):
         if need not in writers:
             r1.broken('expected edge-list writer %s not found' % need)
+    # a *replacing* writer (SetItemInputs) drops the old edges on every path, also when the new input set is empty
+    si = methods.get('SetItemInputs')
+    if si is not None:
+        clears = [si.position_of(n) for n in si.calls() if n['k'] == 'CXXMemberCallExpr' and (n.get('cs') or '').split('::')[-1] == 'clear'
+                  and 'obj' in n and si.strip(si.stmts[n['obj']]).get('member') == 'inputs']
+        clears = [c for c in clears if c is not None]
+        succ_, entry_, exit_ = si.graph()
+        exits = [(p, '') for p, r in si.return_sites()] + [(exit_, '')]
+        if clears and not paths_avoiding(si, [entry_], clears, exits):
+            r1.ok('SetItemInputs:replace-on-every-path', 'the old inputs are unlinked and cleared on every path, before any new edge', '%s:%d' % (si.file, si.line))
+        else:
+            r1.violation('SetItemInputs:replace-on-every-path', '%s:%d' % (si.file, si.line), 'some path leaves SetItemInputs without dropping the old inputs (e.g. an early return for an empty input set): replacing inputs by {} keeps stale edges')
     # AddConnection must refuse duplicates (edge count, erase of one occurrence)
     ac = methods.get('AddConnection')
     if ac is not None:
